@@ -60,6 +60,7 @@ type Profile struct {
 	// images
 	Boundary        int     // number of boundary images per run
 	WalStmts        int     // number of statements whose every log event gets an image
+	RawDMLOnly      bool    // raw statements: SELECT, INSERT, UPDATE, DELETE only (the model keeps following the tables)
 	LazyWakeP       float64 // probability that a plan runs with Knobs.LazyWake
 	FatP            float64 // probability that a plan's tables hold only rows within a few bytes of the row limit (leaves of 8 maximal cells)
 	fat             bool
@@ -359,6 +360,17 @@ func (g *gen) stmtCreate() Stmt {
 	if g.r.Chance(0.06) {
 		// names that resemble the catalog's own, upper case, a column's name
 		st.Table = g.newName([]string{"T", "sys_pages", "sys_schema", "table_name", "tbl", "k"}[g.r.Intn(6)], g.ntab)
+	}
+	if db := g.m.CurDB(); db != nil && len(db.Tables) > 0 && g.r.Chance(0.08) {
+		// the twin of an existing table in another letter case: a different table
+		twin := db.Tables[g.r.Intn(len(db.Tables))].Name
+		up := strings.ToUpper(twin)
+		if g.r.Chance(0.5) {
+			up = strings.ToUpper(twin[:1]) + twin[1:]
+		}
+		if up != twin && db.Table(up) == nil {
+			st.Table = up
+		}
 	}
 	if len(st.Cols) > 1 && g.r.Chance(0.04) {
 		// a column name that makes its catalog row exactly as long as the limit allows (or a little shorter)
@@ -784,6 +796,16 @@ func (g *gen) stmtRaw(db *MDB, t *MTable) Stmt {
 			return fmt.Sprintf("SELECT %s, %s FROM %s ORDER BY %s DESC, %s", col(), col(), t.Name, col(), col())
 		},
 		func() string { return fmt.Sprintf("DELETE FROM %s WHERE nosuch = 1", t.Name) },
+		func() string { return fmt.Sprintf("DELETE FROM %s WHERE %s %s %s", t.Name, col(), op(), lit()) },
+		func() string {
+			return fmt.Sprintf("DELETE FROM %s WHERE %s %s %s OR %s %s %s", t.Name, col(), op(), lit(), col(), op(), lit())
+		},
+		func() string {
+			return fmt.Sprintf("UPDATE %s SET %s = %s WHERE %s %s %s", t.Name, col(), lit(), col(), op(), lit())
+		},
+		func() string {
+			return fmt.Sprintf("DELETE FROM %s WHERE k >= %d AND %s %s %s", t.Name, g.r.Intn(20), col(), op(), lit())
+		},
 		func() string { return fmt.Sprintf("DELETE FROM %s WHERE %s %s %s", t.Name, col(), op(), col()) },
 		func() string {
 			return fmt.Sprintf("UPDATE %s SET %s = %s WHERE nosuch %s %s", t.Name, col(), lit(), op(), lit())
@@ -818,6 +840,9 @@ func (g *gen) stmtRaw(db *MDB, t *MTable) Stmt {
 			if pairs > 60000 {
 				continue
 			}
+		}
+		if g.pf.RawDMLOnly && !isSelectText(q) && !isRawDML(q) {
+			continue
 		}
 		if g.pf.RawMutations || isSelectText(q) {
 			return Stmt{Kind: KRawSQL, SQL: q}
